@@ -221,11 +221,19 @@ def run_cases(run, builds, cfg, max_real=60, max_near=14, tag="c08"):
         near = G.near_misses(rng, r["tree"], paths, 6)
         if len(near) > max_near:
             near = near[:4] + rng.sample(near[4:], max_near - 4)
+        # the selectors (and selector lists) stored in the object's own granular markings: asked back verbatim
+        own = []
+        for g in (r["state0"]["gms"] or []):
+            if any(x not in set(real) for x in g["sels"]):
+                own += [x for x in g["sels"] if x not in real and x not in near]
+                if len(g["sels"]) > 1:
+                    own.append(list(g["sels"]))
+        near = near + [x for x in own if isinstance(x, str)]
         multi = []
         if real:
             g1, g2 = rng.choice(real), rng.choice(real)
             bad = rng.choice(near)
-            multi = [[g1, g2], [g1, bad], [bad, g1], [g1, g1], [g1, g2, bad], []]
+            multi = [[g1, g2], [g1, bad], [bad, g1], [g1, g1], [g1, g2, bad], []] + [x for x in own if isinstance(x, list)]
         cases.append({"build": b, "kind": "c08", "selectors": real + near + multi})
         terms_info.append(term)
     impl = common.run_impl("c07_impl", cases)
